@@ -230,6 +230,9 @@ def judge(comp, fault, args, line, nofault_line, oracle):
         probs.append("allocator protocol error: " + (re.search(r'first_error="([^"]*)"', line) or [None, "?"])[1])
     if spurious:
         probs.append("NO_MEM reported although no request was refused")
+    m = re.search(r" fds=(-?\d+)", line)
+    if m and int(m.group(1)) != 0:
+        probs.append("%s file descriptor(s) opened by the call are still open after it returned" % m.group(1))
     m = re.search(r" libc=(-?\d+)", line)
     if m and int(m.group(1)) > 0:
         probs.append("the C library's heap grew by %s bytes across the call: a block obtained behind the caller's "
